@@ -325,13 +325,14 @@ class WorkerPool:
 
   def call_and_wait(self, *args, courier_method='maybe_make', **kwargs) -> Any:
     """Calls the workers and waits for the results."""
-    self._acquire_all()
-    states = [
-        c.call(*args, courier_method=courier_method, **kwargs)
-        for c in self._workers
-    ]
-    states = [state for state in states if state is not None]
     try:
+      # Also released when acquiring or submitting fails.
+      self._acquire_all()
+      states = [
+          c.call(*args, courier_method=courier_method, **kwargs)
+          for c in self._workers
+      ]
+      states = [state for state in states if state is not None]
       result = get_results(states)
     except Exception as e:  # pylint: disable=broad-exception-caught
       raise e
@@ -369,8 +370,11 @@ class WorkerPool:
       elif maybe_acquire:
         unacquired_workers.append(worker)
     for worker in unacquired_workers:
-      if worker.acquire_by(self) and worker.has_capacity and worker.is_alive:
-        return worker
+      if worker.acquire_by(self):
+        if worker.has_capacity and worker.is_alive:
+          return worker
+        # Not usable now, other pools should not be kept from it.
+        worker.release(self)
 
   @property
   def workers(self) -> list[Worker]:
